@@ -76,6 +76,7 @@ type supervisor struct {
 	lastReacted   ConnState                  // run-owned; dedups reactions/notify (H3; tolerates the H2 pre-commit)
 	closed        bool                       // run-owned; LATCHED true once evClose is processed (I2) — later events ignored
 	gens          atomic.Uint32              // TCP generations committed so far (CommitConnected); stamps evDisconnect
+	commits       atomic.Uint32              // synchronous commits so far (Connected, Selected, SelectLost); stamps evT7Timeout
 	events        chan fsmEvent              // SOLE reader is run(); GUARANTEED command queue (inject blocks, never drops)
 	notify        chan stateChange           // SOLE sender is run(); NON-BLOCKING drop-OLDEST coalescing
 	droppedNotify atomic.Uint64              // count of coalesced/dropped notifications; surfaced via a rate-limited Warn (M4)
@@ -219,6 +220,7 @@ func (s *supervisor) CommitConnected() (committed bool) {
 	// A new TCP generation: bump the generation count BEFORE the state word shows it, so a TCPDown of
 	// the previous generation that is still queued is recognized as stale however step interleaves.
 	s.gens.Add(1)
+	s.commits.Add(1)
 	if s.state.CompareAndSwap(uint32(NotConnectedState), uint32(NotSelectedState)) {
 		s.inject(evTCPUp)
 
@@ -237,6 +239,9 @@ func (s *supervisor) CommitConnected() (committed bool) {
 // Selected is a no-op returning false.
 func (s *supervisor) CommitSelected() (committed bool) {
 	if s.state.CompareAndSwap(uint32(NotSelectedState), uint32(SelectedState)) {
+		// Reaching Selected ends the NOT-SELECTED dwell for good: a T7 expiry raised before this
+		// point is stale from now on, also after a later deselect.
+		s.commits.Add(1)
 		s.inject(evSelectAccepted)
 
 		return true
@@ -257,6 +262,9 @@ func (s *supervisor) CommitSelected() (committed bool) {
 // whether THIS call performed the commit; a call when not Selected is a no-op returning false.
 func (s *supervisor) CommitSelectLost() (committed bool) {
 	if s.state.CompareAndSwap(uint32(SelectedState), uint32(NotSelectedState)) {
+		// A new NOT-SELECTED dwell begins (the transport arms a fresh T7 for it): an expiry raised
+		// while the session was still Selected belongs to the dwell before the select.
+		s.commits.Add(1)
 		s.inject(evSelectLost)
 
 		return true
@@ -315,6 +323,13 @@ func (s *supervisor) step(ev fsmEvent) {
 		// A TCPDown raised by an EARLIER generation (e.g. the second of a read-error / write-error
 		// pair) that was still queued when the next generation's TCP-up committed: that link is
 		// long gone, and the live generation must not be taken down by it.
+		return
+	}
+	if stamped && ev == evT7Timeout && stamp != stampOf(s.commits.Load()) {
+		// A T7 expiry raised before the session reached Selected (or while it was Selected, or in an
+		// earlier generation) and processed only now: even if the state is NotSelected again (a
+		// later deselect), that dwell is over — a session that has reached Selected is never
+		// disconnected by a T7 armed before it was selected (§9.2.2).
 		return
 	}
 
@@ -436,6 +451,10 @@ func (s *supervisor) inject(ev fsmEvent) {
 	if ev == evDisconnect {
 		// a TCPDown belongs to the generation that is up when it is raised
 		ev |= evStamped | stampOf(s.gens.Load())<<evStampShift
+	}
+	if ev == evT7Timeout {
+		// a T7 expiry belongs to the NOT-SELECTED dwell that is current when it is raised
+		ev |= evStamped | stampOf(s.commits.Load())<<evStampShift
 	}
 	select {
 	case s.events <- ev:
